@@ -49,7 +49,7 @@ VECTORS_SK = [
 # ---------------------------------------------------------------- C01
 def gen_c01(rng, tier):
     scripts = []
-    nrand = 40 if tier == "quick" else 400
+    nrand = 40 if tier in ("quick", "light") else 400
     for w in ("128", "64"):
         bs = BS[w]
         for z in (1, 2, 3):
@@ -58,7 +58,7 @@ def gen_c01(rng, tier):
             keys = [bytes(bs * z), bytes([0xff]) * (bs * z)]
             for i in rng.sample(range(bs * z * 8), 6):
                 b = bytearray(bs * z); b[i // 8] = 0x80 >> (i % 8); keys.append(bytes(b))
-            keys += [rbytes(rng, bs * z) for _ in range(3 if tier == "quick" else 12)]
+            keys += [rbytes(rng, bs * z) for _ in range(3 if tier in ("quick", "light") else 12)]
             for w2, kh, ph in VECTORS_SK:
                 if w2 == w and len(kh) == 2 * bs * z:
                     s.add("k%s setkey %d %s %d" % (w, k, kh, bs * z))
@@ -67,9 +67,11 @@ def gen_c01(rng, tier):
             for key in keys:
                 s.add("k%s setkey %d %s %d" % (w, k, hexs(key), bs * z))
                 s.add("k%s img %d" % (w, k))
-                for b in interesting_blocks(rng, bs, nrand)[: (30 if tier == "quick" else 10**6)]:
+                for b in interesting_blocks(rng, bs, nrand)[: (30 if tier in ("quick", "light") else 10**6)]:
                     s.add("k%s enc %d %s" % (w, k, hexs(b)))
                     s.add("k%s dec %d %s" % (w, k, hexs(b)))
+            if tier == "light":
+                scripts.append(("skinny%s z=%d" % (w, z), s.text())); continue
             # one-entry S-box errors: every byte value in every position
             s.add("k%s setkey %d %s %d" % (w, k, hexs(rbytes(rng, bs * z)), bs * z))
             for b in sweep_blocks(rng, bs):
@@ -85,7 +87,7 @@ MTW = "ba912e6f1055fed2"
 MVEC = {5: "3b5c77a4921f9718", 6: "d6522035c1c0c6c1", 7: "60e4345731 1936fd".replace(" ", ""), 8: "308e8a07f168f517"}
 def gen_c02(rng, tier):
     scripts = []
-    nrand = 30 if tier == "quick" else 300
+    nrand = 30 if tier in ("quick", "light") else 300
     for r in (5, 6, 7, 8):
         for mode in (1, 0):
             s = S()
@@ -95,7 +97,7 @@ def gen_c02(rng, tier):
             s.add("mk settweak %d %s 8" % (m, MTW))
             s.add("mk crypt %d %s" % (m, MVEC[r]))
             s.add("mk cryptt %d %s %s" % (m, MVEC[r], MTW))
-            keys = [bytes(16), bytes([0xff]) * 16] + [rbytes(rng, 16) for _ in range(3 if tier == "quick" else 10)]
+            keys = [bytes(16), bytes([0xff]) * 16] + [rbytes(rng, 16) for _ in range(3 if tier in ("quick", "light") else 10)]
             for i in rng.sample(range(128), 4):
                 b = bytearray(16); b[i // 8] = 0x80 >> (i % 8); keys.append(bytes(b))
             for key in keys:
@@ -109,8 +111,10 @@ def gen_c02(rng, tier):
                     s.add("mk cryptt %d %s %s" % (m, hexs(blk), hexs(tw)))
                 s.add("mk settweak %d - 8" % m)
                 s.add("mk crypt %d %s" % (m, hexs(rbytes(rng, 8))))
-                for b in interesting_blocks(rng, 8, nrand)[: (40 if tier == "quick" else 10**6)]:
+                for b in interesting_blocks(rng, 8, nrand)[: (40 if tier in ("quick", "light") else 10**6)]:
                     s.add("mk cryptt %d %s %s" % (m, hexs(b), hexs(rbytes(rng, 8))))
+            if tier == "light":
+                scripts.append(("mantis r=%d mode=%d" % (r, mode), s.text())); continue
             s.add("mk setkey %d %s 16 %d %d" % (m, hexs(rbytes(rng, 16)), r, mode))
             tw = rbytes(rng, 8)
             for b in sweep_blocks(rng, 8)[:: (2 if tier == "quick" else 1)]:
@@ -866,3 +870,18 @@ def gen_c16(rng, tier):
                     s.add("%s init %d" % (kind, o)); valid_setup(rng, s, kind, o); observe(rng, s, kind, o, True)
                     s.add("%s cleanup %d" % (kind, o))
     return [("allocation failure in every init", s.text())] + gen_c15(rng, tier, failalloc=True)
+
+
+# ---------------------------------------------------------------- mixtures used by C11 / C12 / C08
+def gen_mix(rng, tier):
+    """a compact mixture of the histories of C01-C07 and C10 (results compared with the model; the
+    property-level metas are kept where they exist)"""
+    out = []
+    for t in gen_c01(rng, "light"): out.append((t[0], t[1], []))
+    for t in gen_c02(rng, "light"): out.append((t[0], t[1], []))
+    out += gen_c04(rng, "quick")
+    out += gen_c05(rng, "quick")
+    out += gen_c07(rng, "quick")
+    out += gen_c10(rng, "quick")
+    out += [(t[0], t[1], []) for t in gen_c15(rng, "quick")[:2]]
+    return out
